@@ -201,9 +201,9 @@ var fpExactRe = map[string][]*regexp.Regexp{
 	"C04": {regexp.MustCompile(`^model\.\(\*?AlternativeResult\)\.rounded$`)},
 	"C03": {regexp.MustCompile(`^model\.\(\*?AlternativeResult\)\.rounded$`)},
 	// C18: a mixed value lies between its two components (ratio 1 gives c1 itself)
-	"C18": {regexp.MustCompile(`^criteria_mixing\.\(\*criteriaToMix\)\.mix$`)},
+	"C18": {regexp.MustCompile(`^criteria_mixing\.\(\*criteriaToMix\)\.mix$`), regexp.MustCompile(`^model\.scaleCriterion$`)},
 	// C19/C09: the inline applier reports exactly new - old
-	"C19": {regexp.MustCompile(`^anchoring\.\(\*InlineAnchoringApplier\)\.ApplyAnchoring$`)},
+	"C19": {regexp.MustCompile(`^anchoring\.\(\*InlineAnchoringApplier\)\.ApplyAnchoring$`), regexp.MustCompile(`^anchoring\.(pointOfRange|calculateReferencePointDiffs|addAnchoringCriteriaToAlternatives)$`)},
 	"C09": {regexp.MustCompile(`^anchoring\.\(\*InlineAnchoringApplier\)\.ApplyAnchoring$`)},
 }
 
